@@ -313,6 +313,11 @@ def _explore(out, tier, seed, facts, replay):
             elif math.isnan(got1) or not close(got1, want, 1e-9):
                 if math.isnan(got1) and abs(want) > 1e12:
                     continue
+                # a root taken AFTER the aggregation magnifies the aggregate's rounding error (std of three equal cubes is 7e-18, its
+                # cube root 2e-6): such scores are compared before the root
+                inv_ = {"Cmae": lambda x: x ** 3, "Rmse": lambda x: x * x, "Rmsf": lambda x: math.log(x) ** 2 if x > 0 else float("nan")}.get(c)
+                if inv_ is not None and not math.isnan(got1) and abs(inv_(got1) - inv_(want)) <= 1e-12 * max(1.0, abs(inv_(want))):
+                    continue
                 out.violation("value:%s" % c, "%s(obs=%r, fcst=%r, agg=%s) = %r, textbook %r" % (c, o, f, use, got1, want),
                               {"metric": c, "obs": o, "fcst": f, "agg": use})
         if len(samples) < 3 and len(o) > 2:
